@@ -26,7 +26,11 @@ func genLog() *leanFile {
 	l.cmp("findEntryTsCmp", segmentGo, "segment.findEntryByTimestamp", "entry.Timestamp ? timestamp", 0, "ge")
 	l.cmp("findSegmentCmp", utilGo, "findSegment", "segments[i].NextOffset() ? offset", 0, "gt")
 	l.cmp("findSegmentByBaseCmp", utilGo, "findSegmentByBaseOffset", "segments[i].BaseOffset ? offset", 0, "ge")
-	l.cmp("findSegmentTsCmp", utilGo, "findSegmentIndexByTimestamp", "entry.Timestamp ? timestamp", 0, "gt")
+	if anyHas(condTexts(utilGo, "findSegmentIndexByTimestamp"), "inclusive && entry.Timestamp == timestamp") {
+		l.cmp("findSegmentTsCmp", utilGo, "findSegmentIndexByTimestamp", "entry.Timestamp ? timestamp", 2, "gt")
+	} else {
+		l.cmp("findSegmentTsCmp", utilGo, "findSegmentIndexByTimestamp", "entry.Timestamp ? timestamp", 0, "gt")
+	}
 	l.cmp("containsCmp", utilGo, "findSegmentContains", "seg.BaseOffset ? offset", 0, "le")
 	l.cmp("assignEpochCmp", epochGo, "leaderEpochCache.assign", "epoch ? latestEpoch", 0, "gt")
 	l.cmp("assignOffsetCmp", epochGo, "leaderEpochCache.assign", "offset ? latestOffset", 0, "ge")
